@@ -6,7 +6,8 @@ pid="$1"; v="$2"; W=/tmp/mut/${MUT_PREFIX:-m_}$pid; D=$W/out/$v
 git -C "$W/wt" checkout -- . >/dev/null 2>&1
 make -C "$W/kit" -j8 demo SRC="$D/demo.cpp" OUT="$W/confirm_demo" >"$W/confirm_build0.log" 2>&1 || { echo "NOT-CONFIRMED $pid/$v demo does not build on unchanged tree"; exit 1; }
 "$W/confirm_demo" >"$W/confirm_run0.log" 2>&1; rc0=$?
-git -C "$W/wt" apply "$D/patch.diff" || { echo "NOT-CONFIRMED $pid/$v patch does not apply"; exit 1; }
+P="$D/patch.diff"; [ -f "$D/patch_orig.diff" ] && P="$D/patch_orig.diff"   # a patch ported to a later /repo HEAD keeps its original for the workspace
+git -C "$W/wt" apply "$P" || { echo "NOT-CONFIRMED $pid/$v patch does not apply"; exit 1; }
 # header edits: the seeded dependency files may not see them - force the demo to be recompiled, and the library objects of edited .cpp files
 for f in $(git -C "$W/wt" diff --name-only); do touch "$W/wt/$f"; done
 make -C "$W/kit" -j8 demo SRC="$D/demo.cpp" OUT="$W/confirm_demo" >"$W/confirm_build1.log" 2>&1; b1=$?
